@@ -73,6 +73,8 @@ def generate(R, tier):
         size = _shape(R)
         k = int(numpy.prod(size))
         sc.update(n=n, p=p, pstyle=style, size=size)
+        # whole-number weights may arrive in any numeric dtype (counts, flags)
+        sc["pdtype"] = R.choice(["float64", "int64", "int32", "uint8", "uint32", "uint64", "float32"]) if style == "ints" else "float64"
         m = R.choice(["pass", "pass", "low", "high", "edge", "edge", "frac"])
         if m in ("low", "high"):
             sc["rng"]["script"].append({"method": "uniform", "mode": m})
@@ -201,7 +203,7 @@ def _offset_class(sc):
 
 
 def _run_sus(sc, g, V, log):
-    n, p = sc["n"], numpy.array(sc["p"], dtype=float)
+    n, p = sc["n"], numpy.array(sc["p"], dtype=float).astype(sc.get("pdtype", "float64"))
     size = sc["size"] if isinstance(sc["size"], int) else tuple(sc["size"])
     shape = (size,) if isinstance(size, int) else size
     k = int(numpy.prod(shape))
@@ -364,7 +366,7 @@ def execute(sc):
     fired = dict(g.fired)
     log.append(["calls", [(m, mode) for m, _, mode in g.calls][:50]])
     if sc["fn"] == "sus":
-        klass = "%s|n=%d|k=%s|%s" % (sc["pstyle"], sc["n"], "t" if isinstance(sc["size"], list) else "i", sorted(fired))
+        klass = "%s/%s|n=%d|k=%s|%s" % (sc["pstyle"], sc.get("pdtype", "float64"), sc["n"], "t" if isinstance(sc["size"], list) else "i", sorted(fired))
         nontriv = int(numpy.prod(sc["size"])) >= 2
         if any(v == 0.0 for v in sc["p"]):
             probes["sus_zero_weight_present"] = 1
